@@ -330,7 +330,37 @@ func tolFor(n *gen.Node) float64 {
 	return 0
 }
 
+// collisionWitness re-checks known finding field-identity-collision on a fixed tiny case: two
+// table fields with the same printed expression; a grouped query of one of them is sub-merged
+// from both columns and reads double.
+func collisionWitness(ctx *hk.RunCtx) {
+	s := &dbk.Schema{Table: "t", Stream: "inbound", WhereC: -1, Res: time.Second, Retention: 100 * time.Second,
+		Fields: []dbk.FieldDef{
+			{Name: "f0", Node: &gen.Node{Kind: "agg", Name: "COUNT", Kids: []*gen.Node{{Kind: "field", Name: "c"}}}},
+			{Name: "f1", Node: &gen.Node{Kind: "agg", Name: "COUNT", Kids: []*gen.Node{{Kind: "field", Name: "c"}}}}}}
+	db, err := dbk.Open(dbk.Opts{})
+	if err != nil {
+		return
+	}
+	defer db.CloseAndRemove()
+	if db.CreateTable(s) != nil {
+		return
+	}
+	db.Insert(s.Stream, dbk.Point{TS: dbk.Base, Dims: map[string]interface{}{"d": "x"}, Vals: map[string]interface{}{"c": 1.0}})
+	if !db.Quiesce(10 * time.Second) {
+		return
+	}
+	_, rows, err := db.Query("SELECT f1 FROM t GROUP BY *", true, 0)
+	if err == nil && len(rows) == 1 && len(rows[0].Values) == 1 && rows[0].Values[0] == 2 {
+		ctx.Res.KnownFinding("field-identity-collision")
+	}
+	ctx.Res.Hit("collision-witness-run")
+}
+
 func (Engine) Run(ctx *hk.RunCtx) error {
+	if ctx.From == 0 && ctx.Replay == "" {
+		collisionWitness(ctx)
+	}
 	ctx.Res.Rule = "generated (schema, dataset with flushes, 3-6 SQL queries); distinct by canonical model request; non-trivial = dataset with >= 3 accepted points and at least one query that regroups, bounds the time range, filters or has HAVING"
 	for i := 0; i < ctx.N; i++ {
 		idx := uint64(ctx.From + i)
